@@ -191,7 +191,7 @@ type Handler struct {
 	problems  []Problem
 	TimerProg func(key []byte, t int64) Program // program run for a TimerExpired event
 	cond      *sync.Cond
-	OnCall    func(seq int) // optional: called (without the lock) at the start of every invocation (latency gates)
+	OnCall    func(seq int)  // optional: called (without the lock) at the start of every invocation (latency gates)
 	applied   map[string]int // payload id -> times applied (exactly-once evidence)
 	Sink      [][]byte
 	// Check, when set, is evaluated for every keyed event before its program is applied, with the
